@@ -173,6 +173,10 @@ def seq_setup(case, seed):
     canon = ([TIME] if dep_time else []) + list(deps) + prevs + currs
     shape = [sizes[n] for n in canon]
     full = np.array(base_data(sr, shape, seed, 7 + npairs), dtype=np.float64)
+    full2 = np.array(base_data(sr, shape, seed, 57 + npairs), dtype=np.float64)  # second leaf (real forms 2, 3)
+    if fill == "d":
+        # deep log-space data: strongly negative log-factors (partial products far below log(float64 tiny))
+        full = 20.0 * np.array(generic_fill(7 + npairs, tuple(shape), seed), dtype=np.float64) - 300.0
     if fill == "z":
         n = int(np.prod([sizes[p] for p in prevs]))
         nb = int(np.prod([sizes[b] for b in deps])) if deps else 1
@@ -184,7 +188,7 @@ def seq_setup(case, seed):
                         view[t, :, i, j] = s_zero(sr)
     return dict(
         sr=sr, T=T, npairs=npairs, prevs=prevs, currs=currs, deps=list(deps), dep_time=bool(dep_time),
-        real=bool(real), layout=layout, entry=entry, sizes=sizes, canon=canon, full=full,
+        real=int(real), layout=layout, entry=entry, sizes=sizes, canon=canon, full=full, full2=full2,
     )
 
 
@@ -201,11 +205,23 @@ def seq_trans(cfg):
         order = cfg["deps"] + tpart + [n for pc in zip(cfg["prevs"], cfg["currs"]) for n in pc]
     else:
         order = cfg["currs"] + cfg["prevs"] + tpart + cfg["deps"][::-1]
-    data = np.ascontiguousarray(np.transpose(cfg["full"], [cfg["canon"].index(n) for n in order]))
-    trans = Tensor(data, OrderedDict((n, Bint[cfg["sizes"][n]]) for n in order))
+
+    def leaf(arr):
+        data = np.ascontiguousarray(np.transpose(arr, [cfg["canon"].index(n) for n in order]))
+        return Tensor(data, OrderedDict((n, Bint[cfg["sizes"][n]]) for n in order))
+
+    trans = leaf(cfg["full"])
     if cfg["real"]:
+        # real forms: 1 = a (x) r ; 2 = (a (x) r) (x) c  (two leaves, semiring product) ; 3 = a * r + c  (affine)
         r = Variable(REALVAR, Real)
-        trans = trans * r if cfg["sr"].endswith("_mul") else trans + r
+        mul = cfg["sr"].endswith("_mul")
+        if cfg["real"] == 3:
+            trans = trans * r + leaf(cfg["full2"])
+        else:
+            trans = trans * r if mul else trans + r
+            if cfg["real"] == 2:
+                c = leaf(cfg["full2"])
+                trans = trans * c if mul else trans + c
     time = Variable(TIME, Bint[cfg["T"]])
     step = dict(zip(cfg["prevs"], cfg["currs"]))
     return trans, time, step
@@ -268,7 +284,14 @@ def seq_expected(cfg, entry=None):
     names = cfg["deps"] + cfg["prevs"] + cfg["currs"]
 
     def fold_at(v):
-        full = cfg["full"] if v is None else s_prod(sr, cfg["full"], v)
+        if v is None:
+            full = cfg["full"]
+        elif cfg["real"] == 3:
+            full = cfg["full"] * v + cfg["full2"]
+        else:
+            full = s_prod(sr, cfg["full"], v)
+            if cfg["real"] == 2:
+                full = s_prod(sr, full, cfg["full2"])
         Ts = [full[t] if cfg["dep_time"] else full for t in range(T)]
         return chain_fold(sr, Ts, cfg["npairs"])
 
@@ -445,6 +468,12 @@ def bounds(tier):
         "data_kinds": {"g": "generic, every size tuple",
                        "z": "generic with planted semiring zeros incl. a whole zero column, <= %d state pair(s), "
                             "no real parameter" % (2 if thorough else 1)},
+        "deep_data": "kind 'd': log-factors 20*generic-300 for the three additive-product semirings, no real parameter, "
+                     "layout 0; quick: 1 pair, durations %s; thorough: <= 2 pairs, every duration" % (list(THIN_DURATIONS),),
+        "real_parameter_forms": {"1": "a (x) r", "2": "(a (x) r) (x) c with two tensor leaves", "3": "a * r + c",
+                                 "forms 2,3": "quick: states [2],[3], durations %s, deps %s x {time, no time}; thorough: "
+                                              "states [1],[2],[3],[2,2], every duration, every dependency subset"
+                                              % (list(REAL2_DURATIONS), DEPS_THIN)},
         "layouts": {"0": "batch.., time, prev/curr interleaved (all)",
                     "1": "curr.., prev.., time, batch reversed (thorough, <= 2 pairs, generic data)"},
         "seq_config_count": len(cfgs),
@@ -496,6 +525,9 @@ def _perms(n):
 
 
 CROSSED_DURATIONS = (2, 3, 5)
+THIN_DURATIONS = (2, 5, 8)  # deep data (quick)
+REAL2_DURATIONS = (2, 3, 5)  # two-leaf real-parameter forms (quick)
+DEPS_THIN = [[], ["a", "b"]]
 
 
 def seq_cases(tier):
@@ -511,10 +543,22 @@ def seq_cases(tier):
                 for sizes in _tuples([1, 2, 3], npairs):
                     for perm in _perms(npairs)[1:]:
                         configs.append((sizes, 0, "g", 0, perm))
-        for sizes, real, fill, layout, perm in configs:
-            for deps in DEPS:
+        # deep log-space data (additive product ops only) and the two-leaf real-parameter forms, thinned
+        thin = []
+        if T in THIN_DURATIONS or thorough:
+            for npairs in range(1, (2 if thorough else 1) + 1):
+                for sizes in _tuples([1, 2, 3], npairs):
+                    thin.append((sizes, 0, "d", 0, list(range(npairs)), DEPS))
+            for sizes in ([2], [3]) + (([1], [2, 2]) if thorough else ()):
+                if thorough or T in REAL2_DURATIONS:
+                    for form in (2, 3):
+                        thin.append((sizes, form, "g", 0, list(range(len(sizes))), DEPS if thorough else DEPS_THIN))
+        for sizes, real, fill, layout, perm, deplist in [c + (DEPS,) for c in configs] + thin:
+            for deps in deplist:
                 for dep_time in (1, 0):
                     for sr in markov.SEMIRINGS:
+                        if fill == "d" and sr.endswith("_mul"):
+                            continue
                         entries = SEQ_ENTRIES + ["mixed:%d" % k for k in range(1, T + 2)]
                         if deps:
                             entries = entries + ["mp_time_collide"]
@@ -584,7 +628,7 @@ def check(case, seed):
     kind, msg, info = run_case(case, seed)
     tag = ""
     if case[0] == "seq":
-        tag = ("" if case[5] else ":no-time") + (":real" if case[6] else "")
+        tag = ("" if case[5] else ":no-time") + (":real%s" % ("" if case[6] == 1 else case[6]) if case[6] else "")
     if kind == "ok":
         return core.ok(key, T >= 2, "ok:%s%s:%s" % (ek, tag, info.get("result_type")), transitions=T)
     if kind.startswith("decline"):
@@ -594,7 +638,7 @@ def check(case, seed):
     # features are kept small (known-finding predicates); everything else is in the message and the case
     feats = {"entry": ek, "what": kind.split(":", 1)[1]}
     if case[0] == "seq":
-        feats.update(dep_time=bool(case[5]), real=bool(case[6]), crossed_names=case[9] != sorted(case[9]))
+        feats.update(dep_time=bool(case[5]), real=bool(case[6]), real_form=case[6], data=case[7], crossed_names=case[9] != sorted(case[9]))
         if ek not in ("seq", "naive"):
             cfg = seq_setup(case, seed)
             for e in ["seq"] if ek != "mixed" else ["seq", "naive"]:
